@@ -58,6 +58,8 @@ class VF(object):
                 return type(x.resolve())
             return x.vf_type
         if f is len:
+            if not _isinstance(x, Proxy):
+                return f(x)                       # a native container that merely holds proxies
             if _isinstance(x, SymStr) or hasattr(x, 'vf_len'):
                 return x.vf_len()
             raise Concretization('len(%s)' % _type(x).__name__)
